@@ -1,6 +1,7 @@
 package props
 
 import (
+	"sort"
 	"go/types"
 	"strings"
 
@@ -372,6 +373,27 @@ func c08(c *Ctx) {
 			}
 		}
 		r.Check(len(bad) == 0, "R08.E", "eof-only-when-received:"+an.ShortName(f), c.pos(f.Pos()), sprintf("%d exit(s) return the io.EOF sentinel itself; %s", n, strings.Join(bad, "; ")))
+	}
+
+	// a reader reports; it does not hang up: nothing reachable from transport.ReadMsg closes the connection (frames
+	// that follow an error-code frame are still to be delivered, and the end of the stream is the peer's to announce)
+	if rm := c.P.Func(load.TransPkg, "*transport", "ReadMsg"); rm != nil {
+		var bad []string
+		nf := 0
+		for f := range c.Graph().Reachable([]*ssa.Function{rm}, func(f *ssa.Function) bool { return c.P.InRepo(f) }) {
+			if !c.P.InRepo(f) || len(f.Blocks) == 0 {
+				continue
+			}
+			nf++
+			for _, cs := range an.Calls(f) {
+				isClose := cs.Common.IsInvoke() && cs.Common.Method.Name() == "Close" || strings.HasSuffix(cs.Name, ").Close") && !strings.Contains(cs.Name, "gzip")
+				if isClose {
+					bad = append(bad, an.ShortName(f)+" calls Close at "+c.pos(cs.Pos()))
+				}
+			}
+		}
+		sort.Strings(bad)
+		r.Check(len(bad) == 0 && nf > 3, "R08.E", "read-path-never-closes", c.pos(rm.Pos()), sprintf("%d functions reachable from transport.ReadMsg; %s", nf, strings.Join(bad, "; ")))
 	}
 
 	// ---- R08.O: "the same sequence of byte strings" - each delivered message keeps its bytes ------------------------
